@@ -93,8 +93,13 @@ type c11Params struct {
 	Calm       bool `json:"calm,omitempty"` // no filter removes, seencheck skips or fetch failures: only the post-processing outcomes vary
 }
 
-func c11URL(i int) *URL {
-	u := &URL{Raw: fmt.Sprintf("http://e.com/u%d", i)}
+// c11URL builds URL number i. Odd-numbered nodes spell it differently (the query "a b" as a%20b instead of a+b): the same
+// URL by its canonical string - what is fetched, seen-checked and logged - under another raw text, as two references on a
+// page may have it.
+func c11URL(i int) *URL { return c11URLv(i, 0) }
+
+func c11URLv(i, variant int) *URL {
+	u := &URL{Raw: fmt.Sprintf("http://e.com/u%d?q=a%sb", i, []string{"+", "%20"}[variant%2])}
 	if err := u.Parse(); err != nil {
 		panic(err)
 	}
@@ -161,7 +166,7 @@ func c11Canon(n *Item) string {
 	var sb strings.Builder
 	var rec func(n *Item)
 	rec = func(n *Item) {
-		sb.WriteString(n.url.Raw[len("http://e.com/"):])
+		sb.WriteString(n.url.String()[len("http://e.com/"):])
 		sb.WriteByte(':')
 		sb.WriteString(fmt.Sprint(int(n.status)))
 		if len(n.children) > 0 {
@@ -234,7 +239,7 @@ func (r *c11Run) check(seed *Item, after string) c11Snap {
 
 func (r *c11Run) newItem(url int) *Item {
 	r.nextID++
-	return NewItem(fmt.Sprintf("n%d", r.nextID), c11URL(url), "")
+	return NewItem(fmt.Sprintf("n%d", r.nextID), c11URLv(url, r.nextID), "")
 }
 
 func c11Size(seed *Item) int {
